@@ -32,6 +32,10 @@ const (
 	vpCloseStopSent  = 21 // Close: after c.stop <-
 	vpCloseDone      = 22 // Close: after <-c.done
 	vpLockedGetRead  = 23 // lockedMap.get: after RUnlock, before the checks
+	vpTtlAfterGet    = 24 // GetTTL: after storedItems.Get found the key, before Expiration
+	vpTtlAfterExp    = 25 // GetTTL: after storedItems.Expiration, before the clock check
+	vpTtlAfterNow    = 26 // GetTTL: after the clock check, before time.Until
+	vpSetAfterClock  = 27 // SetWithTTL: after the expiration was computed, before storedItems.Update
 	// applier (cache.go processItems)
 	vpAppItem        = 30 // select: item received (observe: flag, key)
 	vpAppMarker      = 31 // marker closed
